@@ -673,6 +673,21 @@ class Calls(object):
         cev = callee_fx.spec_evaluator()
         cev.bound = dict(env)
         cev.spec = True
+        # recursive call of the function under verification: the declared measure must strictly decrease and stay >= 0
+        if not ev.spec and c.get("name") == self.fx.contract.get("name") and c["module"] is self.fx.module:
+            if c.get("decreases"):
+                m_call = cev.ev(sess.parse_spec(c["decreases"]), st).e
+                entry = self.fx.entry_state
+                eev = callee_fx.spec_evaluator()
+                eev.spec = True
+                eev.bound = dict((p, entry.env[p]) for p in c["params"] if p in entry.env)
+                m_entry = eev.ev(sess.parse_spec(c["decreases"]), entry).e
+                g = z3.And(m_call >= 0, m_call < m_entry)
+                if ev.guards:
+                    g = z3.Implies(z3.And(*ev.guards), g)
+                self.fx.oblig("dec@rec[%s]" % c["name"], st, g, self.fx.where(node), c["decreases"])
+            else:
+                self.fx.notes.append("recursive call without a decreases clause: termination not verified")
         pre = st.fork()
         if not ev.spec:
             for r in c.get("requires", []):
